@@ -336,6 +336,11 @@ type runner struct {
 	rec    []string // callbacks recorded since the last reset
 	steps  []string
 	cdc    codec.Codec
+	// compression of the observations (coq/Random/Check.v, compress_obs): what was printed last
+	prevQ, prevOrc string
+	prevRead       map[string]string // rid term -> read term
+	prevOrder      []string          // rid terms in the order of the reads list
+	due            map[int64][]int   // due height -> requesters of accepted plain requests (for the hash table)
 	lastN  int // results present at the previous observation
 	curApp []byte
 }
@@ -390,6 +395,27 @@ func (r *runner) reqTerm(q randomtypes.Request) string {
 		lib.B(q.Oracle), lib.Z(int64(ctx)))
 }
 
+// vstrTerm encodes a value string as in Check.enc_str: a string that is "0." followed by 20
+// decimal digits is sent as its numerator (Check.vdecode renders it back), anything else raw.
+func vstrTerm(v string) string {
+	if len(v) == 22 && v[0] == '0' && v[1] == '.' {
+		ok := true
+		for _, ch := range []byte(v[2:]) {
+			if ch < '0' || ch > '9' {
+				ok = false
+			}
+		}
+		if x, good := new(big.Int).SetString(v[2:], 10); ok && good {
+			return lib.App("VNum", lib.ZB(x))
+		}
+	}
+	var cs []string
+	for _, ch := range []byte(v) {
+		cs = append(cs, lib.Z(int64(ch)))
+	}
+	return lib.App("VRaw", lib.L(cs...))
+}
+
 func ridTerm(p [2]int64) string { return lib.Pair(lib.Z(p[0]), lib.Z(p[1])) }
 
 // observe reads everything C18 talks about through the keeper's query server / exported getters.
@@ -436,13 +462,16 @@ func (r *runner) observe(code int, facts []string) (string, int) {
 		if err == nil && resp.Random != nil {
 			present++
 			txb, _ := hex.DecodeString(resp.Random.RequestTxHash)
-			var cs []string
-			for _, ch := range []byte(resp.Random.Value) {
-				cs = append(cs, lib.Z(int64(ch)))
-			}
-			v = lib.App("Some", lib.Pair(lib.Z(int64(r.txs.Id(string(txb)))), lib.Z(resp.Random.Height), lib.L(cs...)))
+			v = lib.App("Some", lib.Pair(lib.Z(int64(r.txs.Id(string(txb)))), lib.Z(resp.Random.Height), vstrTerm(resp.Random.Value)))
 		}
-		reads = append(reads, lib.Pair(ridTerm([2]int64{is.h, int64(is.c)}), v))
+		rt := ridTerm([2]int64{is.h, int64(is.c)})
+		if old, ok := r.prevRead[rt]; !ok || old != v {
+			reads = append(reads, lib.Pair(rt, v))
+		}
+		if _, ok := r.prevRead[rt]; !ok {
+			r.prevOrder = append(r.prevOrder, rt)
+		}
+		r.prevRead[rt] = v
 	}
 	// oracle requests by every service context id ever returned
 	var orc []string
@@ -455,7 +484,16 @@ func (r *runner) observe(code int, facts []string) (string, int) {
 	}
 	fresh := present - r.lastN
 	r.lastN = present
-	return lib.App("mkObs", lib.Z(int64(code)), lib.L(q...), lib.L(reads...), lib.L(orc...), lib.L(facts...)), fresh
+	qT, oT := "None", "None"
+	if ql := lib.L(q...); ql != r.prevQ {
+		r.prevQ = ql
+		qT = lib.App("Some", ql)
+	}
+	if ol := lib.L(orc...); ol != r.prevOrc {
+		r.prevOrc = ol
+		oT = lib.App("Some", ol)
+	}
+	return lib.App("mkC", lib.Z(int64(code)), qT, lib.App("CDelta", lib.L(reads...)), oT, lib.L(facts...)), fresh
 }
 
 func (r *runner) emit(stepTerm string, code int, facts []string, human string) int {
@@ -468,7 +506,8 @@ func (r *runner) emit(stepTerm string, code int, facts []string, human string) i
 func exec(h History) lib.Case {
 	r := &runner{h: h, c: lib.Case{Stats: map[string]int{}}, txs: lib.NewInterner(), ctxIDs: lib.NewInterner(),
 		apps: lib.NewInterner(), seeds: lib.NewInterner(), table: map[string]string{}, ridOf: map[string][2]int64{},
-		ctxBy: map[int]*svcCtx{}, addr: map[string]int{}}
+		ctxBy: map[int]*svcCtx{}, addr: map[string]int{}, prevQ: "[]", prevOrc: "[]", prevRead: map[string]string{},
+		due: map[int64][]int{}}
 	bal := sdk.NewCoins(sdk.NewCoin("stake", sdkmath.NewInt(1_000_000_000)))
 	timeout := h.Timeout
 	if timeout < 1 {
@@ -646,6 +685,9 @@ func (r *runner) doReq(st Step) {
 		}
 		r.ridOf[idHex] = [2]int64{e.Height, int64(cidx)}
 		r.issued = append(r.issued, issued{h: e.Height, c: cidx, idHex: idHex})
+		if !st.Oracle && cidx >= 0 {
+			r.due[e.Height+int64(st.N)] = append(r.due[e.Height+int64(st.N)], cidx)
+		}
 		if st.Oracle {
 			// what RequestService returned: the context id stored with the request
 			idb, _ := hex.DecodeString(idHex)
@@ -719,6 +761,9 @@ func (r *runner) doGload(st Step) {
 		idHex := hex.EncodeToString(sha(append(sdk.Uint64ToBigEndian(uint64(e.Height)), []byte(consumer)...)))
 		r.ridOf[idHex] = [2]int64{e.Height, int64(st.C)}
 		r.issued = append(r.issued, issued{h: e.Height, c: st.C, idHex: idHex})
+		if !oracle {
+			r.due[due] = append(r.due[due], st.C)
+		}
 	}
 	term := lib.App("Req", lib.Z(int64(st.C)), lib.ZB(new(big.Int).SetUint64(st.N)), lib.B(oracle), "true", lib.Z(int64(txi)), svc)
 	r.emit(term, o.Code(), nil, fmt.Sprintf("h%d genesis-load c%d n=%d kind=%d -> %s %s", e.Height, st.C, st.N, st.Fake, o.Kind, short(o.Err)))
@@ -854,8 +899,23 @@ func (r *runner) doBlock(st Step, secs int64) (int, bool) {
 	}
 	hdr := tmproto.Header{Height: e.Height + 1, Time: tm, AppHash: app, ChainID: "verif"}
 	t := tm.Unix()
+	need := map[int]bool{}
+	for _, c := range r.due[e.Height] { // accepted plain requests due now, by the driver's own bookkeeping
+		need[c] = true
+	}
+	r.rk.IterateRandomRequestQueue(e.Ctx, func(h int64, _ []byte, rq randomtypes.Request) bool {
+		if h == e.Height || h == e.Height+1 { // whatever the keeper is about to drain, rightly or not
+			if c := r.actorIdx(rq.Consumer); c >= 0 {
+				need[c] = true
+			}
+		}
+		return false
+	})
+	r.addPRNG(t, app, -1, nil)
 	for c := 0; c < nConsumers; c++ {
-		r.addPRNG(t, app, c, nil)
+		if need[c] {
+			r.addPRNG(t, app, c, nil)
+		}
 	}
 	r.rec = nil
 	out = e.BeginBlockAt(hdr)
